@@ -56,7 +56,7 @@ func (r *zzTIRef) put(n ast.Node, e zzTIExpect) {
 	r.order = append(r.order, n)
 }
 
-var zzTIInFields = map[string]string{"a": "Int", "b": "String!", "c": "Int", "d": "Color"}
+var zzTIInFields = map[string]string{"a": "Int", "b": "String!", "c": "Int", "d": "Color", "n": "In"}
 
 // value: types inside a literal. in = expected input type at the value.
 func (r *zzTIRef) value(v ast.Value, ctx zzTIExpect) {
